@@ -3,7 +3,7 @@
 use anyhow::{Context, Result};
 use clap::Subcommand;
 use std::fs::File;
-use std::io::{BufReader, BufWriter};
+use std::io::{BufReader, BufWriter, Write};
 use std::path::PathBuf;
 
 use wow_wdl::parser::WdlParser;
@@ -213,6 +213,8 @@ fn execute_convert(
     output_parser
         .write(&mut writer, &converted_file)
         .context("Failed to write converted file")?;
+    // A BufWriter dropped unflushed discards the error of its last write
+    writer.flush().context("Failed to write converted file")?;
 
     pb.finish_and_clear();
 
